@@ -906,7 +906,6 @@ def main():
         include_value_aliases = True
 
     # Prepare the YAML processor
-    yaml = Parsers.get_yaml_editor()
     processor = EYAMLProcessor(
         log, None, binary=args.eyaml,
         publickey=args.publickey, privatekey=args.privatekey)
@@ -925,8 +924,12 @@ def main():
             "yaml_merge::main:  Processing file, {}".format(
                 "STDIN" if yaml_file.strip() == "-" else yaml_file))
 
+        # Each file gets its own parser because a failed load can leave
+        # state (like Anchor names) behind in a reused parser, causing the
+        # next -- perfectly valid -- file to be rejected.
         proc_state = process_yaml_file(
-            args, yaml, log, yaml_file, processor, search_values, search_keys,
+            args, Parsers.get_yaml_editor(), log, yaml_file, processor,
+            search_values, search_keys,
             include_key_aliases, include_value_aliases, file_tally
         )
 
@@ -941,7 +944,8 @@ def main():
     ):
         file_tally += 1
         exit_state = process_yaml_file(
-            args, yaml, log, "-", processor, search_values, search_keys,
+            args, Parsers.get_yaml_editor(), log, "-", processor,
+            search_values, search_keys,
             include_key_aliases, include_value_aliases, file_tally
         )
 
